@@ -4,6 +4,8 @@ the handler then publishes, and that the consumers take all of it without failin
 -/
 import SigModel.Spec.ShapesBackend
 
+set_option linter.unusedSimpArgs false
+
 namespace SigModel.ShapesBackend
 open SigModel.Generated.ShapesBackend
 
